@@ -44,6 +44,8 @@ PAYLOADS = {
     'amp': '&lt;b&gt; &amp;amp; &#x41;',
     'surrdc': u'file caf\udce9.txt',       # what os.fsdecode() makes of undecodable file-name bytes
     'surrd8': u'half \ud83d pair',
+    'long': u'<zq9l> long detail, compresses well ' * 120,
+    'latin': u'caf\xe9 cr\xe8me <zq9m>',
 }
 SURROGATE = ('surrdc', 'surrd8')
 NEUTRAL = {'attr': 'http://x/neutral'}
@@ -134,7 +136,7 @@ class Apps(object):
 
         def raiser():
             cname, kw, how = outer.spec
-            e = getattr(errors, cname)(**kw)
+            e = (outer.extra_classes.get(cname) or getattr(errors, cname))(**kw)
             if how == 'return':
                 return e
             raise e
@@ -151,9 +153,44 @@ class Apps(object):
         self.app = {'default': Application(routes), 'debug': Application(routes, debug=True)}
         # a route added with rebind_render_error=False and no render_error of its own
         from clastic import Route
+        from clastic.middleware import GzipMiddleware
+        self.app['gzip'] = Application(routes, middlewares=[GzipMiddleware()])
+
+        class ForbiddenLatin1(errors.Forbidden):
+            charset = 'iso-8859-1'        # an error type that talks latin-1
+
+        class NotFoundUtf16(errors.NotFound):
+            charset = 'utf-16'
+        errors_ns = {'ForbiddenLatin1': ForbiddenLatin1, 'NotFoundUtf16': NotFoundUtf16}
+        self.extra_classes = errors_ns
         nr = Application([('/ok', lambda: Response('ok'))])
         nr.add(Route('/err', raiser), rebind_render_error=False)
         self.app['norebind'] = nr
+
+
+def client_view(res):
+    """Undo the declared content coding and re-encode the body from the declared charset to utf-8 (in place).
+    Returns None or (kind, message)."""
+    enc = (res.header('Content-Encoding') or '').strip().lower() if res.headers else ''
+    if enc:
+        import gzip as _gz
+        try:
+            if enc != 'gzip':
+                raise ValueError('unknown coding %r' % enc)
+            res.body = _gz.decompress(res.body or b'')
+        except Exception as e:
+            return ('content-encoding', 'body is not what Content-Encoding %r says: %s' % (enc, e))
+    cs = 'utf-8'
+    for part in ((res.header('Content-Type') or '') if res.headers else '').split(';')[1:]:
+        k_, _, v_ = part.strip().partition('=')
+        if k_.lower() == 'charset' and v_:
+            cs = v_.strip('"')
+    if cs.lower().replace('_', '-') not in ('utf-8', 'utf8'):
+        try:
+            res.body = (res.body or b'').decode(cs).encode('utf-8', 'surrogatepass')
+        except Exception as e:
+            return ('charset', 'body does not decode under the declared charset %r: %s' % (cs, e))
+    return None
 
 
 def fmt_of(res):
@@ -249,6 +286,8 @@ def run_case(acc, A, handler, kind, spec, accept, pkey, carrier, neutral_cache):
     app = A.app[handler]
     payload = PAYLOADS.get(pkey, '')
     hdrs = {'Accept': accept} if accept is not None else {}
+    if handler == 'gzip':
+        hdrs['Accept-Encoding'] = 'gzip'
     fields = {}
     want = None
 
@@ -300,8 +339,13 @@ def run_case(acc, A, handler, kind, spec, accept, pkey, carrier, neutral_cache):
     if res.raised is not None:
         bad('raised-%s' % type(res.raised).__name__, 'application raised %r' % (res.raised,))
         return
+    # what the client sees is the body with the declared content coding undone and the declared charset applied
+    problem = client_view(res)
+    if problem and method != 'HEAD':
+        bad(problem[0], problem[1])
+        return
     if kind == 'class':
-        cls = getattr(A.errors, spec[0])
+        cls = A.extra_classes.get(spec[0]) or getattr(A.errors, spec[0])
         want = 418 if spec[1] == 'code' else (499 if spec[1] == 'code499' else cls.code)
         fields = {'code': want, 'message': kw.get('message', cls.message), 'detail': kw.get('detail', None),
                   'error_type': kw.get('error_type', None)}
@@ -327,12 +371,15 @@ def run_case(acc, A, handler, kind, spec, accept, pkey, carrier, neutral_cache):
         acc.add('nontrivial')
     if fmt is None:
         return
+    if kind == 'class' and spec[0] == 'ForbiddenLatin1' and fmt == 'json':
+        return      # application/json carries no charset parameter: an 8-bit error type has no way to declare itself
     neutral_body = None
     if fmt == 'html' and pkey is not None:
         nkey = (handler, kind, tuple(spec) if spec else None, carrier, accept, neutral_for(pkey))
         neutral_body = neutral_cache.get(nkey)
         if neutral_body is None:
             nres, _ = do(neutral_for(pkey))
+            client_view(nres)
             acc.transitions += 1
             neutral_body = neutral_cache[nkey] = nres.body
     strict = not (kind == 'class' and spec[0] in ('InternalServerError', 'NotImplemented', 'BadGateway',
@@ -372,6 +419,16 @@ def items(tier):
                 out.append((handler, 'boom', None, ('path', pkey)))
                 if pkey != 'nonascii':
                     out.append((handler, 'boom', None, ('host', pkey)))
+    for cname in ('Forbidden', 'NotFound', 'InternalServerError'):
+        for how in ('raise', 'return'):
+            # behind GzipMiddleware, asked for with Accept-Encoding: gzip, with a long and with a short detail
+            for pkey in ('long', 'tag', 'plain'):
+                out.append(('gzip', 'class', (cname, 'detail', how), pkey))
+    for cname in ('ForbiddenLatin1',):
+        for how in ('raise', 'return'):
+            for pkey in ('latin', 'tag', 'plain', 'long'):
+                for field in ('detail', 'message'):
+                    out.append(('default', 'class', (cname, field, how), pkey))
     for cname in ('Forbidden', 'NotFound', 'InternalServerError'):
         for how in ('raise', 'return'):
             out.append(('norebind', 'class', (cname, None, how), None))
